@@ -27,10 +27,14 @@ CRASH_IS_VIOLATION = False
 RULE = ("generated: secrets {ascii, non-ascii, empty, 200+ chars} x salts x iterations {1,2,1000,4096} x key lengths "
         "{16,32,64} x challenges {JSON-like, non-ascii, empty, long} for WAMP-CRA; keys of 1..64 octets x instants "
         "{RFC 6238 instants, window edges 30k/30k+29/30k+29.999, random, > 2^32} for TOTP; passwords (SASLprep-stable) "
-        "x salts of 8..64 octets x Argon2id (t,m) / PBKDF2 iterations x channel-binding strings for SCRAM; Ed25519 seeds "
-        "x challenges x channel ids {none, 32 octets} for cryptosign; all from random.Random(seed, shard). Exhaustive "
+        "x salts of 8..64 octets x base64 spellings of the salt text {canonical, trailing LF (b2a_base64), CRLF, folded lines, MIME "
+        "76-column lines, non-zero unused pad bits, both} x Argon2id (t,m) / PBKDF2 iterations x channel-binding strings for "
+        "SCRAM; Ed25519 seeds x challenges x channel ids {none, 32 octets} for cryptosign, plus k = 2..4 signing requests "
+        "(different challenges / channel ids) started back to back on ONE key object / ONE authenticator before the event loop "
+        "runs; all from random.Random(seed, shard). Exhaustive "
         "inside a case: every single-bit alteration of the CRA signature, the cryptosign signature and signed message, "
-        "the SCRAM server signature (256 bits + 14 structural forgeries), and of challenge / key / salt / secret / "
+        "the SCRAM server signature (256 bits + 14 structural forgeries), of the unused low bits of the salt text's last "
+        "character (plus a line break appended / inserted / removed), and of challenge / key / salt / secret / "
         "channel id inputs (capped per case where a KDF with >= 1000 iterations is re-run; caps are lifted in the "
         "thorough tier). A case is non-trivial when a library result was compared with the reference or judged by the "
         "independent verifier; distinct = hash of (mechanism, configuration, inputs).")
@@ -44,6 +48,14 @@ ASSUMPTIONS = [
     "by the repository's committed derive_scram_credential vectors); every HMAC/hash/XOR/KDF on top is recomputed",
     "SCRAM salt arrives as base64 TEXT (what every WAMP serializer delivers for the spec's string attribute); a bytes salt is "
     "only observed (counter scram_bytes_salt_observed), never judged",
+    "SCRAM AuthMessage carries the salt text exactly as sent in the CHALLENGE (RFC 5802: built from the server-first-message as "
+    "received) and the KDF runs over the octets that text decodes to; for a text that is not canonical base64 (line breaks, "
+    "non-zero unused pad bits - all spellings are generated from known octets and checked with a hand-written lenient decoder) a "
+    "client may instead REFUSE the challenge (RFC 4648 3.3/3.5 allow strict decoders): counted, not a violation. Characters "
+    "outside the alphabet other than CR/LF and missing padding are not driven",
+    "concurrent cryptosign requests: on asyncio the requests overlap (the reply future of request i is pending when request i+1 "
+    "starts: counter cryptosign_concurrent_overlapping_starts); on Twisted fired Deferreds complete synchronously, so the same "
+    "schedule degenerates to sequential use - both are judged by the same oracle",
     "passwords and authids are generated SASLprep-stable (saslprep(x) == x) and authids ASCII without ',' '=' so that the "
     "question whether the library normalizes passwords (RFC 5802 says SASLprep, the library does not) stays outside the verdict",
     "check_totp: accepted set = codes of time steps T-1, T, T+1 (the documented RFC 6238 leniency); a code of another step "
@@ -70,6 +82,13 @@ DECIDING = {
     "cryptosign_signatures_verified": 500,
     "cryptosign_alterations_checked": 5000,
     "xor_compared": 50,
+    # non-canonical base64 spellings of the SCRAM salt (proof verified over the text as sent, or the challenge refused) and
+    # alterations of the salt text that leave its octets unchanged (unused-bit flips, line breaks)
+    "scram_noncanonical_salt_judged": 20,
+    "scram_salt_text_alterations_checked": 100,
+    # one key object / authenticator, 2..4 signing requests in flight at once, each reply judged against its own challenge
+    "cryptosign_concurrent_replies_judged_tx": 50,
+    "cryptosign_concurrent_replies_judged_aio": 50,
 }
 
 SECTIONS = ["cra", "totp", "scram-argon", "scram-pbkdf2", "scram-credential", "cryptosign"]
@@ -586,12 +605,66 @@ def _welcome(a, authextra):
     return "accept" if r is None else "deny"
 
 
+SALT_FORMS = ["canonical", "newline", "crlf", "fold", "mime", "padbits", "padbits-newline"]
+
+
+def _spell_salt(raw, form, variant=0):
+    """One of the base64 TEXTS a router may put on the wire for the salt octets ``raw``: canonical (base64.b64encode), with
+    the trailing newline binascii.b2a_base64 emits, CRLF-terminated, folded into short lines / MIME lines of 76 characters
+    (base64.encodebytes), with non-zero unused low bits in the last character before the padding (RFC 4648 3.5), or both.
+    Every spelling decodes to ``raw`` with a lenient decoder (checked with the hand-written one of crypto_ref)."""
+    text = CR.b64_encode_canonical(raw)
+    if text != base64.b64encode(raw).decode("ascii"):
+        raise CR.RefError("b64_encode_canonical != base64.b64encode")
+    if form in ("padbits", "padbits-newline"):
+        i, unused = CR.b64_unused_bits(text)
+        if unused:
+            v = 1 + variant % ((1 << unused) - 1)
+            text = text[:i] + CR.B64_ALPHABET[CR.B64_ALPHABET.index(text[i]) | v] + text[i + 1:]
+        else:
+            text += "\n"
+        if form == "padbits-newline":
+            text += "\n"
+    elif form == "newline":
+        text += "\n"
+    elif form == "crlf":
+        text += "\r\n"
+    elif form in ("fold", "mime"):
+        width = 76 if form == "mime" else (4, 8, 16, 20, 60)[variant % 5]
+        sep = "\r\n" if (form == "fold" and variant % 2) else "\n"
+        text = "".join(text[i:i + width] + sep for i in range(0, len(text), width))
+        if form == "mime" and text != base64.encodebytes(raw).decode("ascii"):
+            raise CR.RefError("mime spelling != base64.encodebytes")
+    elif form != "canonical":
+        raise ValueError(form)
+    if CR.b64_decode_lenient(text) != raw:
+        raise CR.RefError("salt spelling %r does not decode to the salt octets" % (text,))
+    return text
+
+
+def _salt_text(p):
+    if p.get("salt_text") is not None:
+        return p["salt_text"]
+    return _spell_salt(bytes.fromhex(p["salt"]), p.get("salt_form") or "canonical", p.get("salt_variant") or 0)
+
+
+_KDF_CACHE = {}
+
+
 def _scram_ref(case, client_nonce, **over):
+    """Reference keys + AuthMessage: the KDF runs over the salt OCTETS, the AuthMessage carries the salt TEXT exactly as
+    sent in the CHALLENGE (RFC 5802: AuthMessage is built from the server-first-message as received)."""
     p = dict(case)
     p.update(over)
-    salt_b64 = base64.b64encode(bytes.fromhex(p["salt"])).decode("ascii")
-    salted = CR.scram_salted_password(p["kdf"], p["password"].encode("utf8"), salt_b64, p["iterations"], p.get("memory"))
-    am = CR.scram_auth_message(p["authid"], client_nonce, client_nonce + p["server_nonce_tail"], salt_b64, p["iterations"],
+    salt_text = _salt_text(p)
+    k = (p["kdf"], p["password"], p["salt"], p["iterations"], p.get("memory"))
+    if k not in _KDF_CACHE:
+        if len(_KDF_CACHE) > 64:
+            _KDF_CACHE.clear()
+        _KDF_CACHE[k] = CR.scram_salted_password_octets(p["kdf"], p["password"].encode("utf8"), bytes.fromhex(p["salt"]),
+                                                        p["iterations"], p.get("memory"))
+    salted = _KDF_CACHE[k]
+    am = CR.scram_auth_message(p["authid"], client_nonce, client_nonce + p["server_nonce_tail"], salt_text, p["iterations"],
                                p["channel_binding"] or "")
     return CR.ScramKeys(salted), am
 
@@ -601,9 +674,9 @@ def _scram_challenge(case, client_nonce, salt_as_bytes=False, **over):
 
     p = dict(case)
     p.update(over)
-    salt_b64 = base64.b64encode(bytes.fromhex(p["salt"]))
+    salt_text = _salt_text(p)
     extra = {"nonce": client_nonce + p["server_nonce_tail"], "kdf": p["kdf"],
-             "salt": salt_b64 if salt_as_bytes else salt_b64.decode("ascii"), "iterations": p["iterations"]}
+             "salt": salt_text.encode("ascii") if salt_as_bytes else salt_text, "iterations": p["iterations"]}
     if p.get("memory") is not None:
         extra["memory"] = p["memory"]
     if p["channel_binding"] is not None:
@@ -621,7 +694,7 @@ def run_scram(case, R):
 
     def viol(key, what, **detail):
         detail.update(kdf=kdf, iterations=case["iterations"], memory=case.get("memory"), salt_len=len(case["salt"]) // 2,
-                      password_class=case.get("password_class"))
+                      password_class=case.get("password_class"), salt_form=case.get("salt_form") or "canonical")
         R.violation(key, what, detail, case)
 
     a = auth.AuthScram(authid=case["authid"], password=case["password"])
@@ -631,11 +704,23 @@ def run_scram(case, R):
         viol("C19/scram/authextra/nonce", "authextra nonce %r is not a stable non-empty string" % (client_nonce,))
         return
     keys, am = _scram_ref(case, client_nonce)
+    form = case.get("salt_form") or "canonical"
+    salt_text = _salt_text(case)
+    noncanonical = salt_text != CR.b64_encode_canonical(bytes.fromhex(case["salt"]))
+    if noncanonical:
+        base += "/noncanonical-salt-text"
     # 1. client proof
     try:
         reply = a.on_challenge(_Session(), _scram_challenge(case, client_nonce))
     except Exception as e:
         R.count("scram_on_challenge_raised")
+        if noncanonical:
+            # RFC 4648 3.3/3.5 allow a strict decoder to refuse line breaks / non-zero pad bits: a rejection of such a
+            # CHALLENGE is within the statement ("... or a rejection"); what is not, is a proof over another text
+            R.count("scram_noncanonical_salt_judged")
+            R.count("scram_noncanonical_salt_rejected_observed")
+            R.seen("salt_forms", form + "/rejected:" + _exc(e))
+            return
         viol("%s/text-salt/on_challenge/raises/%s" % (base, _exc(e)),
              "AuthScram.on_challenge raised %r for a well-formed challenge (kdf=%s, base64 text salt)" % (e, kdf))
         _scram_observe_pbkdf2(case, client_nonce, R)
@@ -646,10 +731,13 @@ def run_scram(case, R):
         viol(base + "/proof-encoding", "on_challenge reply %r is not base64" % (reply,))
         return
     R.count("scram_proofs_verified")
-    R.seen("nontrivial", h(["scram", kdf, case["iterations"], case.get("memory"), case["password"], case["salt"],
+    if noncanonical:
+        R.count("scram_noncanonical_salt_judged")
+    R.seen("salt_forms", form)
+    R.seen("nontrivial", h(["scram", kdf, case["iterations"], case.get("memory"), case["password"], case["salt"], salt_text,
                             case["server_nonce_tail"], case["channel_binding"]]))
-    R.seen("configs", "scram/%s/it=%s/m=%s/salt=%d/%s" % (kdf, case["iterations"], case.get("memory"), len(case["salt"]) // 2,
-                                                          case.get("password_class")))
+    R.seen("configs", "scram/%s/it=%s/m=%s/salt=%d/%s/%s" % (kdf, case["iterations"], case.get("memory"), len(case["salt"]) // 2,
+                                                             case.get("password_class"), form))
     if not CR.scram_server_verify(keys.stored_key, am, proof):
         viol(base + "/verifier-rejects", "RFC 5802 server-side verification (H(ClientProof XOR HMAC(StoredKey, AuthMessage)) == "
              "StoredKey) rejects the client proof", proof=proof.hex(), auth_message=am.decode("ascii"))
@@ -714,6 +802,23 @@ def run_scram(case, R):
         return
     salt_raw = bytes.fromhex(case["salt"])
     alts = [("salt-bit", dict(salt=_flip_bit(salt_raw, bit).hex())) for bit in _bits(len(salt_raw) * 8, case.get("kdf_cap"), rng)]
+    # the salt TEXT altered without altering the octets it decodes to: the unused low bits of the last character flipped,
+    # a line break appended / inserted / removed.  The CHALLENGE was altered, so the proof must change (or the challenge be
+    # refused) although the KDF input is the same
+    text_alts = []
+    last, unused = CR.b64_unused_bits(salt_text)
+    for b in range(unused):
+        text_alts.append(("salt-text-unused-bit", salt_text[:last] + CR.B64_ALPHABET[CR.B64_ALPHABET.index(salt_text[last]) ^ (1 << b)]
+                          + salt_text[last + 1:]))
+    text_alts.append(("salt-text-linebreak-appended", salt_text + rng.choice(["\n", "\r\n"])))
+    k = rng.randrange(1, last + 1)
+    text_alts.append(("salt-text-linebreak-inserted", salt_text[:k] + "\n" + salt_text[k:]))
+    if "\n" in salt_text:
+        text_alts.append(("salt-text-linebreak-removed", salt_text.replace("\r", "").replace("\n", "")))
+    for kind, t in text_alts:
+        if t == salt_text or CR.b64_decode_lenient(t) != salt_raw:
+            raise CR.RefError("salt text alteration %s: %r -> %r changes the octets" % (kind, salt_text, t))
+        alts.append((kind, dict(salt_text=t)))
     alts.append(("iterations", dict(iterations=case["iterations"] + 1)))
     if case.get("memory") is not None:
         alts.append(("memory", dict(memory=case["memory"] + 8)))
@@ -728,7 +833,7 @@ def run_scram(case, R):
     aid = case["authid"]
     i = rng.randrange(len(aid))
     alts.append(("authid-char", dict(authid=aid[:i] + ("Z" if aid[i] != "Z" else "Y") + aid[i + 1:])))
-    n_alt = 0
+    n_alt = n_text = 0
     for kind, over in alts:
         try:
             if "password" in over or "authid" in over:
@@ -739,9 +844,14 @@ def run_scram(case, R):
             reply2 = b.on_challenge(_Session(), _scram_challenge(case, client_nonce, **over))
             proof2 = base64.b64decode(reply2)
         except Exception as e:
+            if _salt_text(dict(case, **over)) != CR.b64_encode_canonical(bytes.fromhex(over.get("salt", case["salt"]))):
+                R.count("scram_noncanonical_salt_rejected_observed")    # refusing a non-canonical spelling is a rejection
+                n_text += "salt_text" in over
+                continue
             viol("%s/alter/%s/raises/%s" % (base, kind, _exc(e)), "altered %s made on_challenge raise %r" % (kind, e))
             continue
         n_alt += 1
+        n_text += "salt_text" in over
         keys2, am2 = _scram_ref(case, client_nonce, **over)
         if proof2 == proof:
             viol("%s/alter/%s/same-proof" % (base, kind), "altered %s yields the same client proof" % kind, over=over)
@@ -756,6 +866,7 @@ def run_scram(case, R):
         if _welcome(b, {"scram_server_signature": b64s(keys2.server_signature(am2))}) != "accept":
             viol(base + "/on_welcome/rejects-correct", "correct server signature rejected after altered %s" % kind, over=over)
     R.count("scram_input_alterations_checked", n_alt)
+    R.count("scram_salt_text_alterations_checked", n_text)
 
 
 def _scram_observe_pbkdf2(case, client_nonce, R):
@@ -888,7 +999,8 @@ def gen_scram_cases(rng, tier, kdf, part, parts):
             salt_len = rng.choice([8, 12, 16, 16, 24, 32, 64])
         case = {"kind": "scram", "kdf": kdf, "password": password, "password_class": pc,
                 "authid": gen_text(rng, "alnum", 1, 3) + "".join(rng.choice(AUTHID_CHARS) for _ in range(rng.randint(0, 12))),
-                "salt": rng.randbytes(salt_len).hex(), "iterations": it, "memory": mem,
+                "salt": rng.randbytes(salt_len).hex(), "salt_form": rng.choice(SALT_FORMS) if i % 5 >= 2 else "canonical",
+                "salt_variant": rng.randrange(1000), "iterations": it, "memory": mem,
                 "server_nonce_tail": base64.b64encode(rng.randbytes(rng.choice([12, 16, 18]))).decode("ascii"),
                 "channel_binding": rng.choice([None, None, "", "biws", "tls-unique"]),
                 "alter": True, "kdf_cap": kdf_cap, "alt_seed": rng.getrandbits(32)}
@@ -1014,6 +1126,134 @@ def run_cryptosign(case, R):
     R.count("cryptosign_alterations_checked", n_alt)
 
 
+def _tick(n=1):
+    """Let the asyncio loop run ``n`` iterations (no-op on Twisted, where fired Deferreds run their callbacks synchronously)."""
+    import txaio
+
+    if txaio.using_asyncio:
+        import asyncio
+
+        for _ in range(n):
+            _LOOP.run_until_complete(asyncio.sleep(0))
+
+
+def _outcome(fut):
+    """('ok', value) | ('err', exception name) | ('pending', None) of a txaio future, without waiting."""
+    import txaio
+
+    if isinstance(fut, (str, bytes)):
+        return "ok", fut
+    if txaio.using_twisted:
+        out, err = [], []
+        fut.addCallbacks(out.append, lambda f: err.append(f) and None)
+        if err:
+            return "err", type(err[0].value).__name__
+        return ("ok", out[0]) if out else ("pending", None)
+    if not fut.done():
+        return "pending", None
+    if fut.cancelled():
+        return "err", "CancelledError"
+    if fut.exception() is not None:
+        return "err", type(fut.exception()).__name__
+    return "ok", fut.result()
+
+
+def run_cryptosign_concurrent(case, R):
+    """ONE key object (the documented ``extra={"key": CryptosignKey...}`` idiom) resp. ONE AuthCryptoSign authenticator serving
+    several sessions: k signing requests with different challenges / channel ids are started back to back WITHOUT the event
+    loop running in between (both CHALLENGEs handled in the same loop iteration), then the loop runs and every reply is judged
+    against ITS OWN challenge: signed message == challenge_i XOR channel_id_i, Ed25519 signature valid for it."""
+    import txaio
+    from autobahn.wamp import auth, cryptosign
+    from autobahn.wamp.types import Challenge
+
+    R.count("evaluations")
+    fw = "tx" if txaio.using_twisted else "aio"
+    seed = bytes.fromhex(case["seed"])
+    via = case["via"]
+    items = case["items"]
+    base = "C19/cryptosign/concurrent/%s" % via
+    pub = CR.ed25519_public_from_seed(seed)
+
+    def viol(key, what, **detail):
+        detail.update(via=via, k=len(items), framework=fw, ticks=case.get("ticks"))
+        R.violation(key, what, detail, case)
+
+    bound = bool(case.get("binding"))
+    try:
+        if via == "key":
+            key = cryptosign.CryptosignKey.from_bytes(seed)
+        else:
+            ax = {"channel_binding": "tls-unique"} if bound else {}
+            a = auth.AuthCryptoSign(privkey=seed.hex(), authid="client01", authextra=ax)
+    except Exception as e:
+        viol("%s/setup/raises/%s" % (base, _exc(e)), "raised %r" % (e,))
+        return
+    futs, want = [], []
+    ticks = case.get("ticks") or [0] * len(items)
+    for i, it in enumerate(items):
+        chal = bytes.fromhex(it["challenge"])
+        cid = bytes.fromhex(it["channel_id"]) if it.get("channel_id") else None
+        ch = Challenge(it.get("method", "cryptosign"), {"challenge": chal.hex()})
+        if futs and _outcome_peek(futs[-1]) == "pending":
+            R.count("cryptosign_concurrent_overlapping_starts")    # the previous request is still in flight
+        try:
+            if via == "key":
+                f = key.sign_challenge(ch, channel_id=cid, channel_id_type="tls-unique" if cid is not None else None)
+                want.append(CR.cryptosign_message(chal, cid))
+            else:
+                # a session without channel binding may still sit on a transport that has a channel id (must be ignored)
+                chan = {"tls-unique": cid} if cid is not None else {}
+                f = a.on_challenge(_Session(chan), ch)
+                want.append(CR.cryptosign_message(chal, cid if bound else None))
+        except Exception as e:
+            viol("%s/sign/raises/%s" % (base, _exc(e)), "request %d of %d raised %r" % (i, len(items), e))
+            return
+        futs.append(f)
+        if ticks[i]:
+            _tick(ticks[i])
+    for _ in range(20):
+        if all(_outcome_peek(f) != "pending" for f in futs):
+            break
+        _tick()
+    R.seen("nontrivial", h(["cryptosign-concurrent", case["seed"], via, bound, items, ticks]))
+    R.seen("configs", "cryptosign-concurrent/%s/k=%d/%s" % (via, len(items), "per-request" if via == "key" else ("binding" if bound else "no-binding")))
+    for i, f in enumerate(futs):
+        st, reply = _outcome(f)
+        if st != "ok":
+            viol("%s/%s" % (base, "unresolved" if st == "pending" else "fails/%s" % reply),
+                 "request %d of %d: future %s" % (i, len(items), "never resolved (20 loop iterations)" if st == "pending" else "failed: %s" % reply))
+            continue
+        R.count("cryptosign_concurrent_replies_judged_" + fw)
+        parts = CR.cryptosign_split_reply(reply)
+        if parts is None:
+            viol(base + "/reply-layout", "request %d: reply %r is not hex(signature 64 octets) || hex(message 32 octets)" % (i, reply))
+            continue
+        sig, msg = parts
+        if msg != want[i]:
+            other = [j for j in range(len(items)) if j != i and want[j] == msg]
+            viol(base + ("/message-of-other-request" if other else "/message-mismatch"),
+                 "request %d of %d (same key object, started back to back): signed message %s, its own challenge XOR channel id "
+                 "= %s%s" % (i, len(items), msg.hex(), want[i].hex(), "; that is the message of request %d" % other[0] if other else ""),
+                 request=i)
+        if not CR.ed25519_verify(pub, sig, want[i]):
+            viol(base + "/verifier-rejects", "request %d of %d: Ed25519 verification of the signature over this request's own "
+                 "message (challenge XOR channel id) fails" % (i, len(items)), request=i,
+                 valid_for=[j for j in range(len(items)) if CR.ed25519_verify(pub, sig, want[j])])
+        elif msg == want[i]:
+            R.count("cryptosign_signatures_verified")
+
+
+def _outcome_peek(fut):
+    import txaio
+
+    if isinstance(fut, (str, bytes)):
+        return "ok"
+    if txaio.using_twisted:
+        return "done" if fut.called else "pending"
+    return "done" if fut.done() else "pending"
+
+
 def run_xor(case, R):
     from autobahn import util
 
@@ -1064,6 +1304,23 @@ def gen_cryptosign_cases(rng, tier, part, parts):
                "method": rng.choice(["cryptosign", "cryptosign", "cryptosign-proxy"]),
                "decoy_channel": cid is None and rng.random() < 0.5,
                "alter": True, "cap": None if full else (8 if quick else 48), "alt_seed": rng.getrandbits(32)}
+    for i in range(60 if quick else 800):
+        k = rng.choice([2, 2, 2, 3, 3, 4])
+        via = rng.choice(["key", "key", "authenticator"])
+        bound = rng.random() < 0.6
+        items = []
+        for j in range(k):
+            chal = rng.randbytes(32)
+            if items and rng.random() < 0.1:
+                chal = bytes.fromhex(items[0]["challenge"])           # same challenge, other channel
+            cid = rng.randbytes(32) if (bound if via != "key" else rng.random() < 0.6) or (via != "key" and rng.random() < 0.3) else None
+            items.append({"challenge": chal.hex(), "channel_id": cid.hex() if cid is not None else None,
+                          "method": rng.choice(["cryptosign", "cryptosign", "cryptosign-proxy"])})
+        ticks = [0] * k
+        if k > 2 and rng.random() < 0.3:
+            ticks[rng.randrange(1, k - 1)] = rng.choice([1, 2])       # some requests one loop turn later; the first two never
+        yield {"kind": "cryptosign-concurrent", "seed": rng.randbytes(32).hex(), "via": via, "binding": bound, "items": items,
+               "ticks": ticks}
     for i in range(80 if quick else 600):
         ln = rng.choice([0, 1, 2, 15, 16, 17, 31, 32, 32, 32, 33, 64, 100, rng.randint(0, 300)])
         yield {"kind": "xor", "a": rng.randbytes(ln).hex(), "b": rng.randbytes(ln).hex()}
@@ -1071,7 +1328,8 @@ def gen_cryptosign_cases(rng, tier, part, parts):
 
 # ------------------------------------------------------------------------------------------------
 RUNNERS = {"cra": run_cra, "totp": run_totp, "totp-secret": run_totp_secret, "scram": run_scram, "scram-rfc7677": run_scram_rfc7677,
-           "scram-credential": run_scram_credential, "cryptosign": run_cryptosign, "xor": run_xor}
+           "scram-credential": run_scram_credential, "cryptosign": run_cryptosign, "cryptosign-concurrent": run_cryptosign_concurrent,
+           "xor": run_xor}
 
 
 def run_shard(params, R):
@@ -1120,7 +1378,10 @@ MANIFEST_ENTRY = {
              "server-side proof verification, Argon2 raw API cross-checked with libsodium, Ed25519 verification by "
              "cryptography), all pinned to RFC vectors in every shard; inside a case every single-bit alteration of the "
              "signature, of the SCRAM server signature handed to on_welcome (plus structural forgeries) and of "
-             "challenge/key/salt/secret/channel-id inputs is replayed and must change the signature / be denied. Runs under "
+             "challenge/key/salt/secret/channel-id inputs is replayed and must change the signature / be denied; SCRAM salts "
+             "are also sent in non-canonical base64 spellings (line breaks, non-zero pad bits; AuthMessage over the text as sent, "
+             "KDF over its octets) and altered in their unused bits; one cryptosign key object / authenticator signs 2..4 "
+             "challenges in flight at once and every reply is verified against its own challenge. Runs under "
              "Twisted and asyncio. Held = no mismatch on the executions listed in the evidence; not a proof."),
     "note": ("trusts vf/crypto_ref.py and the third-party primitives it calls (hashlib, cryptography's Ed25519, argon2-cffi raw API, "
              "libsodium Argon2id); WAMP-SCRAM AuthMessage layout and the Argon2 encoded-tag-as-SaltedPassword convention are taken "
